@@ -40,6 +40,15 @@ class Oracle:
         # handed to begin()/end(), never branched on: branching on an opaque value is Unknown)
         self.any_member = any_member
 
+    def with_params(self, vals):
+        """the same oracle for another activation (a constructor this one delegates to): other parameter values"""
+        child = Oracle(self.calls, vals, self.members, self.effects, self.any_member, self.any_call, self.any_param)
+        if getattr(self, "tu", None) is not None:
+            child.tu = self.tu
+            child.depth = getattr(self, "depth", 0)
+        child.this_v = getattr(self, "this_v", None)
+        return child
+
     def descend_into(self, tu, depth=3):
         """let calls of library functions the rule does not name be interpreted from their own bodies (a helper the
         code was factored into); virtual calls only when the unit knows exactly one implementation"""
